@@ -34,6 +34,16 @@ pub struct LoadStats {
     pub files: usize,
     pub parsing_time: Duration,
     pub stat_time: Duration,
+    /// a build file changed between being read and the tree state being taken:
+    /// the tree state does not describe what was parsed
+    pub changed_while_loading: bool,
+}
+
+/// what `treestate` compares: length and modification time (None if the file is gone)
+fn file_stamp(path: &std::path::Path) -> Option<(u64, Option<std::time::SystemTime>)> {
+    std::fs::metadata(path)
+        .ok()
+        .map(|attr| (attr.len(), attr.modified().ok()))
 }
 
 // Any value that is present is considered Some value, including null.
@@ -428,11 +438,15 @@ pub fn load(
     let mut filenames: IndexSet<FileInclude> = IndexSet::new();
     filenames.insert(FileInclude::new(Utf8PathBuf::from(filename), None, None));
 
+    // length/mtime of every file as it was just before it was read
+    let mut stamps_before_read = Vec::new();
+
     let mut filenames_pos = 0;
     while filenames_pos < filenames.len() {
         let include = filenames.get_index(filenames_pos).unwrap();
         let filename = include.filename.clone();
         let new_index_start = yaml_datas.len();
+        stamps_before_read.push(file_stamp(filename.as_std_path()));
 
         // load all yaml documents from filename, append to yaml_datas
         yaml_datas.append(&mut load_all(include, new_index_start)?);
@@ -1080,12 +1094,20 @@ pub fn load(
     #[cfg(kaspar030_laze_verif)]
     crate::verif_oracle::fault("between_parse_and_stat");
     let treestate = FileTreeState::new(filenames.iter());
+
+    // the tree state was taken after parsing: it only vouches for what was parsed if
+    // no file changed since it was read
+    let changed_while_loading = filenames
+        .iter()
+        .zip(stamps_before_read.iter())
+        .any(|(filename, before)| file_stamp(filename) != *before);
     let stat_time = start.elapsed();
 
     let stats = LoadStats {
         parsing_time,
         stat_time,
         files: filenames.len(),
+        changed_while_loading,
     };
     Ok((contexts, treestate, stats))
 }
